@@ -347,13 +347,13 @@ func Close() { out.Close() }
 `
 
 type methodPlan struct {
-	name          string
-	in, out       []jField
-	errName       string  // error replied in mode "error" ("" if none)
-	errFields     []jField
-	overridden    bool
-	inWire        []string // wire value per in field ("" = absent optional)
-	outWire       []string
+	name       string
+	in, out    []jField
+	errName    string // error replied in mode "error" ("" if none)
+	errFields  []jField
+	overridden bool
+	inWire     []string // wire value per in field ("" = absent optional)
+	outWire    []string
 }
 
 func emitProgram(i int, c *progCase, rng *rand.Rand) (string, int) {
